@@ -251,6 +251,12 @@ func (e *Engine) builtin(st *State, f *Frame, res ssa.Value, in ssa.Instruction,
 			lt = e.ibin(tokLSS, b2, a).(BoolV).t
 		}
 		set(IntV{e.tb.Ite(lt, a.t, b2.t), a.w, a.sg})
+	case "ssa:wrapnilchk":
+		if p, ok := args[0].(PtrV); ok && p.obj == 0 {
+			e.panicCheck(st, f, in, e.tb.ff, "value method called through nil pointer")
+			return
+		}
+		set(args[0])
 	case "print", "println":
 	default:
 		panic(hardErr("builtin " + b.Name()))
